@@ -399,16 +399,21 @@ def b_re_compile(I, a, k, node):
     if is_concrete(p):
         fl = concrete(a[1]) if len(a) > 1 else concrete(k.get('flags', 0))
         return Regex(concrete(p), int(fl))
-    # pattern built from data
-    safe = False
+    # pattern built from data: a format of a constant template with integer operands
+    excs = ['re.error', 'OverflowError']
     if isinstance(p, Unk) and p.src and p.src[0] == 'format':
         ops = p.src[2]
         ops = ops if isinstance(ops, list) else [ops]
-        safe = all((not taint_of(o)) or (isinstance(o, Unk) and o.only('int', 'bool') and
-                                         any(f.startswith('>=') or f.startswith('>') for f in o.facts) and
-                                         any(f.startswith('<') for f in o.facts)) for o in ops)
-    if not safe and tj(p):
-        I.may_raise(node, ['re.error', 'OverflowError'], 're.compile of a pattern built from unvalidated data', (p,))
+        tainted = [o for o in ops if taint_of(o)]
+        ints = all(isinstance(o, Unk) and o.only('int', 'bool') for o in tainted)
+        lower = all(any(str(f).startswith(('>=', '>')) for f in o.facts) for o in tainted) if ints else False
+        upper = all(any(str(f).startswith('<') for f in o.facts) for o in tainted) if ints else False
+        if ints and lower:
+            excs.remove('re.error')       # a repeat count that is a non-negative integer is well-formed
+        if ints and upper:
+            excs.remove('OverflowError')
+    if excs and tj(p):
+        I.may_raise(node, excs, 're.compile of a pattern built from unvalidated data', (p,))
     return Unk('regex', kinds=['Regex'], taint=tj(p), src=('call', 're.compile', a))
 
 
@@ -562,6 +567,8 @@ def m_encode(I, recv, a, k, node, kind):
     u = Unk('%s.encode' % getattr(recv, 'name', repr(concrete(recv))), kinds=['bytes'], taint=tj(recv, enc),
             src=('method', recv, 'encode', [enc]))
     u.facts.add(('encoded-by', id(enc)))
+    if getattr(enc, 'param_name', None):
+        u.facts.add(('encoded-by-param', enc.param_name))
     if is_concrete(enc):
         u.facts.add(('encoded-in', concrete(enc)))
     if is_concrete(recv) and concrete(recv):
@@ -801,7 +808,10 @@ def m_pop(I, recv, a, k, node, kind):
         if a:
             raise AnalysisError('list.pop(i)')
         if recv.unknown and not recv.items:
-            I.may_raise(node, ['IndexError'], 'pop from list of unknown length', (recv,))
+            if 'nonempty' not in getattr(recv, 'facts', ()):
+                I.may_raise(node, ['IndexError'], 'pop from list of unknown length', (recv,))
+            else:
+                recv.facts = set(recv.facts) - {'nonempty'}
             return M.derive(recv.elem, 'pop')
         if not recv.items:
             _raise(I, node, 'IndexError', 'pop from empty list')
